@@ -1183,6 +1183,8 @@ func (f *fragment) min(filter *Row, bitDepth uint) (min int64, count uint64, err
 
 // minUnsigned the lowest value without considering the sign bit. Filter is required.
 func (f *fragment) minUnsigned(filter *Row, bitDepth uint) (min int64, count uint64) {
+	// With a bit depth of zero every considered column holds zero.
+	count = filter.Count()
 	for i := int(bitDepth - 1); i >= 0; i-- {
 		row := filter.Difference(f.row(uint64(bsiOffsetBit + i)))
 		count = row.Count()
@@ -1225,6 +1227,8 @@ func (f *fragment) max(filter *Row, bitDepth uint) (max int64, count uint64, err
 
 // maxUnsigned the highest value without considering the sign bit. Filter is required.
 func (f *fragment) maxUnsigned(filter *Row, bitDepth uint) (max int64, count uint64) {
+	// With a bit depth of zero every considered column holds zero.
+	count = filter.Count()
 	for i := int(bitDepth - 1); i >= 0; i-- {
 		row := f.row(uint64(bsiOffsetBit + i)).Intersect(filter)
 		count = row.Count()
@@ -1449,6 +1453,11 @@ func (f *fragment) rangeGT(bitDepth uint, predicate int64, allowEquality bool) (
 
 func (f *fragment) rangeGTUnsigned(filter *Row, bitDepth uint, predicate uint64, allowEquality bool) (*Row, error) {
 	keep := NewRow()
+
+	// With a bit depth of zero every value is zero: none is strictly greater.
+	if bitDepth == 0 && !allowEquality {
+		return keep, nil
+	}
 
 	// Filter any bits that don't match the current bit value.
 	for i := int(bitDepth - 1); i >= 0; i-- {
